@@ -141,7 +141,12 @@ def run_ptb(spec, R, rng, path):
         fields = line.split(' ')
         variants = [' '.join(fields[:k]) for k in range(1, len(fields))]
         variants += [line[:rng.randrange(1, len(line))] for _ in range(4)]
-        br = [k for k, ch in enumerate(line) if ch == ')']      # a line missing a closing bracket is incomplete
+        # a line missing a *structural* closing bracket is incomplete (a ')' inside a word is part of the word)
+        br, off = [], 0
+        for item in fields:
+            run = len(item) - len(item.rstrip(')'))
+            br += list(range(off + len(item) - run, off + len(item)))
+            off += len(item) + 1
         variants += [line[:k] + line[k + 1:] for k in rng.sample(br, min(4, len(br)))]
         for v in variants:
             if v == line or not v.strip():
